@@ -50,9 +50,9 @@ Proof.
   split; auto. rewrite lc_bind_single'. exact H1.
 Qed.
 Lemma c08_ex_mulop_nonvacuous :
-  exists x', multiply_op ex_ks ex_x 4 (-1) = Ok x' /\ ~ lc_eq (den ex_ks x' ex_n) [].
+  exists x', multiply_op ex_ks ex_x 0 1 = Ok x' /\ ~ lc_eq (den ex_ks x' [3; -2; 1; 1; 1]) [].
 Proof.
-  eexists. split; [reflexivity|]. intros H. specialize (H [4; -2; 1; 0; 1]).
+  eexists. split; [reflexivity|]. intros H. specialize (H [3; -2; 1; 0; 1]).
   vm_compute in H. destruct H as [H _]. discriminate H.
 Qed.
 
@@ -75,7 +75,7 @@ Lemma c08_ex_mul_nonvacuous :
   ~ lc_eq (den ex_ks (mul ex_ks ex_x ex_y) ex_n) [].
 Proof.
   split; [exact ex_sig|]. split; [exact ex_wf_x|]. split; [exact ex_wf_y|]. split; [exact ex_bok|].
-  intros H. specialize (H [2; -2; 0; 1; 0]). vm_compute in H. destruct H as [H _]. discriminate H.
+  intros H. specialize (H [4; -2; 1; 0; 0]). vm_compute in H. destruct H as [_ H]. discriminate H.
 Qed.
 
 (** __add__, __neg__ (hence __sub__) *)
@@ -98,10 +98,11 @@ Lemma c08_adjoint : forall ks x n m,
   /\ wf_nof ks (adj x).
 Proof. intros. split; [apply adj_correct; auto|apply adj_wf; auto]. Qed.
 Lemma c08_ex_adjoint_nonvacuous :
-  phys ex_ks ex_n /\ phys ex_ks [4; -2; 1; 0; 1] /\
-  ~ geq (melt ex_ks ex_x [4; -2; 1; 1; 1] ex_n) g0 .
+  phys ex_ks [4; -2; 1; 1; 1] /\ phys ex_ks [5; -2; 1; 0; 1] /\
+  ~ geq (melt ex_ks ex_x [4; -2; 1; 1; 1] [5; -2; 1; 0; 1]) g0 .
 Proof.
-  split; [exact ex_phys|]. split; [cbn; repeat split; intros; auto; try discriminate; lia|].
+  split; [cbn; repeat split; intros; auto; try discriminate; lia|].
+  split; [cbn; repeat split; intros; auto; try discriminate; lia|].
   intros H. vm_compute in H. destruct H as [H _]. discriminate H.
 Qed.
 
